@@ -14,6 +14,7 @@ import (
 	"sync"
 	"testing"
 	"testing/synctest"
+	"time"
 )
 
 // PointRec is one scheduling decision.
@@ -54,6 +55,20 @@ type Sched struct {
 	// code that never goes quiescent.
 	StopAfter int
 	Horizon   bool
+	// Time as an event. TimerPending reports whether anything in the code under test waits for time
+	// to pass (armed timers); when it does, "advance-time" is one more alternative of a decision
+	// (thread id AdvanceID, listed last, at most MaxAdvances times per execution): the driver sleeps
+	// AdvanceStep of virtual time, which fires the timers due, and goes on. When no thread is enabled
+	// and timers are armed, time is advanced without it being a choice.
+	TimerPending func() bool
+	AdvanceStep  time.Duration
+	MaxAdvances  int
+	advances     int
+	forced       int
+	// Resolve, if set, names the logical thread on whose behalf the calling goroutine runs (-1:
+	// unknown, the thread released last is assumed). Needed once time can wake a thread other than
+	// the one released last.
+	Resolve func() int
 	// OnDecision, if set, is consulted before each decision with the canonical enabled list; it
 	// may return true to stop the execution (state-key pruning).
 	OnDecision func(s *Sched, enabled []int) bool
@@ -102,14 +117,36 @@ func (s *Sched) park(tid int, label string, enabled func() bool) {
 // Point is a scheduling point of the thread that is currently running. enabled may be nil
 // (always enabled); it is evaluated by the driver at quiescence.
 func (s *Sched) Point(label string, enabled func() bool) {
-	s.mu.Lock()
-	tid := s.current
-	s.mu.Unlock()
+	tid := s.Who()
 	if tid < 0 {
 		return
 	}
 	s.park(tid, label, enabled)
 }
+
+// PointFor is Point for a known thread.
+func (s *Sched) PointFor(tid int, label string, enabled func() bool) {
+	if tid < 0 {
+		s.Point(label, enabled)
+		return
+	}
+	s.park(tid, label, enabled)
+}
+
+// Who names the logical thread the calling goroutine works for.
+func (s *Sched) Who() int {
+	if s.Resolve != nil {
+		if t := s.Resolve(); t >= 0 {
+			return t
+		}
+	}
+	s.mu.Lock()
+	defer s.mu.Unlock()
+	return s.current
+}
+
+// AdvanceID is the pseudo thread id of the "let time pass" alternative.
+const AdvanceID = -7
 
 // Current returns the id of the running thread.
 func (s *Sched) Current() int { s.mu.Lock(); defer s.mu.Unlock(); return s.current }
@@ -136,6 +173,13 @@ func (s *Sched) Run() {
 			if p.enabled == nil || p.enabled() {
 				ids = append(ids, tid)
 			}
+		}
+		if len(ids) == 0 && !alldone && s.TimerPending != nil && s.TimerPending() && s.forced < 16 {
+			// everybody waits, and something waits for time: let it pass
+			s.forced++
+			s.mu.Unlock()
+			time.Sleep(s.step())
+			continue
 		}
 		if len(ids) == 0 {
 			if !alldone {
@@ -184,6 +228,9 @@ func (s *Sched) Run() {
 				return
 			}
 		}
+		if s.MaxAdvances > s.advances && s.TimerPending != nil && s.TimerPending() {
+			ids = append(ids, AdvanceID)
+		}
 		choice := 0
 		if len(s.Trace) < len(s.prefix) {
 			choice = s.prefix[len(s.Trace)]
@@ -197,16 +244,33 @@ func (s *Sched) Run() {
 		}
 		labels := make([]string, len(ids))
 		for i, t := range ids {
+			if t == AdvanceID {
+				labels[i] = "advance-time"
+				continue
+			}
 			labels[i] = s.parked[t].label
 		}
 		s.Trace = append(s.Trace, PointRec{Enabled: ids, Labels: labels, Chosen: choice, Running: s.current, RunEn: runEn})
 		t := ids[choice]
+		if t == AdvanceID {
+			s.advances++
+			s.mu.Unlock()
+			time.Sleep(s.step())
+			continue
+		}
 		p := s.parked[t]
 		delete(s.parked, t)
 		s.current = t
 		s.mu.Unlock()
 		close(p.ch)
 	}
+}
+
+func (s *Sched) step() time.Duration {
+	if s.AdvanceStep > 0 {
+		return s.AdvanceStep
+	}
+	return time.Second
 }
 
 func (s *Sched) teardownLocked() {
